@@ -6,9 +6,9 @@ import zipfile
 
 from . import gen
 
-UNI = ["a", "b", "ä", "😀", "日本", 'q"t', "a b", "c"]
+UNI = ["a", "b", "ä", "😀", "日本", 'q"t', "a b", "c", ""]
 KINDS = ["k1", "k2", "k3"]
-FLAVOURS = ["plain_str", "str_ids", "obj_cb", "obj_derived", "dw", "typed_str", "typed_str_ids", "typed_obj", "typed_derived", "fs"]
+FLAVOURS = ["plain_str", "str_ids", "str_hook", "obj_cb", "obj_derived", "dw", "typed_str", "typed_str_ids", "typed_obj", "typed_derived", "fs"]
 
 KEY_MAPS = {"default": True, "off": False,
             "custom": {"data_id": "i", "str": "s", "kind": "k", "type": "t", "name": "n", "age": "a"}}
@@ -61,6 +61,24 @@ def deser_cb(parent, data):
         cls = FalsyObj if data["name"].startswith("falsy") else Obj
         return cls(data["name"], data["type"], data["data_id"], data.get("age"))
     return data["str"]
+
+
+def deser_cb_consuming(parent, data):
+    """A load mapper that consumes the entry dict while it builds the object."""
+    if "type" in data:
+        name = data.pop("name")
+        typ = data.pop("type")
+        did = data.pop("data_id")
+        age = data.pop("age", None)
+        data.pop("kind", None)
+        cls = FalsyObj if name.startswith("falsy") else Obj
+        return cls(name, typ, did, age)
+    return data.pop("str")
+
+
+def str_hook(tree, data):
+    """An id hook that also maps *strings* to ids other than hash()."""
+    return "id:" + data if isinstance(data, str) else hash(data)
 
 
 def derived_classes():
@@ -119,6 +137,13 @@ def build_source(flavour, f, rng):
         labs = gen.clone_labeling(rng, f, UNI) or [f"n{i}" for i in range(n)]
         gen.build(t, f, lambda i: labs[i], kind=kind)
         load_cls = cls
+    elif flavour == "str_hook":
+        # string data in a tree whose id hook gives strings a non-hash id: the ids are custom and must survive
+        t = Tree("src", calc_data_id=str_hook)
+        labs = gen.clone_labeling(rng, f, ["a", "b", "c", "ä"]) or [f"n{i}" for i in range(n)]
+        gen.build(t, f, lambda i: labs[i])
+        load_cls = Tree
+        load_kw["mapper"] = lambda parent, data: data["str"]
     elif flavour in ("str_ids", "typed_str_ids"):
         cls = TypedTree if typed else Tree
         t = cls("src")
@@ -148,7 +173,7 @@ def build_source(flavour, f, rng):
             cls = TypedTree if typed else Tree
             t = cls("src", calc_data_id=calc_cb)
             save_kw["mapper"] = ser_cb
-            load_kw["mapper"] = deser_cb
+            load_kw["mapper"] = deser_cb_consuming if rng.random() < 0.4 else deser_cb
         pool = [(FalsyObj if rng.random() < 0.25 else Obj)(f"nm{i}ä", rng.choice(["person", "dept"]), rng.choice([f"g{i}", 1000 + i]),
                                                            rng.choice([None, 20 + i]))
                 for i in range(max(1, n // 2 + 1))]
